@@ -2874,3 +2874,64 @@ def check_no_memory_order_flatten(ctx, rule: str, module_paths, floor: int = 0) 
                               'array the per-element results are put back at permuted positions' % norm(node)[:60], fn.path, node.lineno,
                               operand='memory-order-flatten')
     return n
+
+
+# ---------------------------------------------------------------------------------------------------------------
+def whole_array_regime_tests(fn: FuncInfo):
+    """(if-node, array): `if np.min(X) < c:` / `if np.all(X > c):` / `if X.max() ..` that selects between two FORMULAS applied to the
+    whole of X (neither branch raises): the regime that is right for the extreme element is applied to every element, so an array that
+    mixes both regimes gets the wrong formula for part of its elements (a scalar, or an array within one regime, is unaffected)."""
+    RED = {'min', 'max', 'amin', 'amax', 'all', 'any', 'nanmin', 'nanmax'}
+
+    def reduced(e):
+        for x in ast.walk(e):
+            if isinstance(x, ast.Call):
+                f = x.func
+                if isinstance(f, ast.Attribute) and f.attr in RED:
+                    if isinstance(f.value, ast.Name) and f.value.id in ('np', 'numpy') and x.args:
+                        arg = x.args[0]
+                    elif not x.args:
+                        arg = f.value
+                    else:
+                        continue
+                    names = {n.id for n in ast.walk(arg) if isinstance(n, ast.Name)}
+                    if names:
+                        return names
+        return None
+    for n in walk_no_nested(fn.node):
+        if not isinstance(n, ast.If):
+            continue
+        names = reduced(n.test)
+        if not names:
+            continue
+        def exits_with_value(body):
+            return [s for s in body if (isinstance(s, ast.Return) and s.value is not None) or isinstance(s, (ast.Assign, ast.AugAssign))]
+        if any(isinstance(s, ast.Raise) for b in (n.body, n.orelse) for s in b):
+            continue
+        vals = exits_with_value(n.body)
+        if not vals:
+            continue
+        uses = [s for s in vals if any(isinstance(x, ast.Name) and x.id in names for x in ast.walk(s.value if not isinstance(s, ast.Return) else s.value))]
+        if uses and any(isinstance(x, (ast.BinOp, ast.Call)) for x in ast.walk(uses[0].value)):
+            yield n, sorted(names)[0]
+
+
+def check_no_whole_array_regimes(ctx, rule: str, module_paths, floor: int = 0) -> int:
+    ctx.rule(rule, 'no test on a REDUCTION of an array (np.min / max / all / any) selects between two formulas that are then applied to the '
+                   'whole array: the regime must be chosen per element (np.where), or the formula must be valid in every regime', floor=floor)
+    M = ctx.model
+    n = 0
+    for path in module_paths:
+        mod = M.module(path)
+        fns = [f for c in mod.classes.values() for f in list(c.methods.values())] + list(mod.functions.values())
+        for fn in fns:
+            ctx.instance(rule, fn.qualname)
+            n += 1
+            hits = list(whole_array_regime_tests(fn))
+            ctx.obligation(rule, fn.qualname, not hits, {'tests': [norm(h[0].test)[:60] for h in hits]} if hits else None,
+                           nontrivial=any(isinstance(x, ast.If) for x in walk_no_nested(fn.node)))
+            for node, a in hits[:1]:
+                ctx.violation(rule, fn.qualname, '`if %s:` decides from the extreme element of `%s` which formula is applied to ALL its elements: an '
+                              'array that spans both regimes gets the formula of the wrong regime for part of its elements' % (norm(node.test)[:60], a),
+                              fn.path, node.lineno, operand='whole-array-regime:' + a)
+    return n
